@@ -2,7 +2,7 @@
 # tools/try_seeded.sh <dir with patch.diff [demo.py]> <property id> [tier]
 # Applies the change to a scratch worktree of /repo (never to /repo itself), runs the demonstration
 # (if any) and the property's check against that worktree; prints DETECTED / MISSED.
-d="$1"; pid="$2"; tier="${3:-quick}"
+d="$(realpath "$1")"; pid="$2"; tier="${3:-quick}"
 wt=$(mktemp -d /tmp/seedtest-XXXXXX); rmdir "$wt"
 git -C /repo worktree add -q "$wt" HEAD || exit 2
 if ! git -C "$wt" apply "$d/patch.diff"; then echo "PATCH-DOES-NOT-APPLY $d"; git -C /repo worktree remove --force "$wt"; exit 2; fi
